@@ -70,7 +70,17 @@ def regf():
     register_classes(reg, ["wormhole/errors.py", "wormhole/_dilation/connector.py"])
     for c in CONTRACTS:
         reg.contracts[c.target] = c
+    install_hint_support(reg)
+    reg.func_models["wormhole/util.py:HKDF"] = lambda it, args, kw, fr: it.fresh("bytes", "hkdf")
+    reg.input_as_boundary = True
+    return reg
+
+
+def install_hint_support(reg):
+    """spec functions over hint objects, the sorted()/defaultdict/endpoint/deferLater models: shared with props/c07.py
+    (Common._connect consumes the parsed hints)"""
     sf = reg.spec_funcs
+    generic = {k: sf.get(k) for k in ("n_calls", "is_method_of", "iter_n_calls", "iter_call_arg", "n_events")}
     sf["valid_hint"] = lambda it, h: VBool(_valid_tcp(h))
     sf["valid_any_hint"] = lambda it, h: VBool(_valid_any(h))
     sf["all_valid"] = lambda it, s: VBool(_valid_seq(s))
@@ -183,12 +193,13 @@ def regf():
 
     reg.ext_models["collections.defaultdict"] = new_defaultdict
     reg.ext_models["new:DilationHint"] = lambda it, cls, args, kw: it.fresh("opaque[DilationHint]", "dilation_hint")
-    reg.func_models["wormhole/util.py:HKDF"] = lambda it, args, kw, fr: it.fresh("bytes", "hkdf")
 
     def ep_connect(it, recv, meth, args, kwargs, fr):
         """endpoint.connect(factory): recorded with the endpoint as argument 0; returns a Deferred"""
         it.ctx.event("bcall", "Endpoint", meth, [recv] + list(args), dict(kwargs))
-        return it.fresh(DEFERRED, "connect_d")
+        d = it.fresh(DEFERRED, "connect_d")
+        it.ctx.event("new-deferred", d)
+        return d
 
     reg.boundary["Endpoint.connect"] = ep_connect
     sf["n_events"] = lambda it, name: VInt(sum(1 for e in it.ctx.trace if e[0] == it.concrete(name)))
@@ -198,6 +209,8 @@ def regf():
         if isinstance(v, (VList, VTuple)) and len(v.items) <= 1:
             return VList(list(v.items))
         from_set = None
+        if isinstance(v, VMap):
+            v = VSet(v.present, v.kt)        # sorted(d): the keys
         if isinstance(v, VSet):
             from pyvc.models import b_list
             from_set = v
@@ -227,16 +240,20 @@ def regf():
         j = z3.Int("j!so")
         it.ctx.assume(z3.ForAll([j], z3.Implies(z3.And(0 <= j, j < L),
                                                 z3.And(0 <= perm(j), perm(j) < L, r[j] == v.z[perm(j)]))))
+        if from_set is not None:
+            # every element of the result is a member of the set (consequence of "same members", stated per index)
+            it.ctx.assume(z3.ForAll([j], z3.Implies(z3.And(0 <= j, j < L), z3.Select(from_set.z, r[j]))))
         it.reg.note("sorted(): result is a same-length sequence with the same members; TypeError possible when two or "
                     "more elements are present and some priority is not a number")
         return VSeq(r, v.elem)
 
     reg.ext_models["sorted"] = sorted_model
-    reg.input_as_boundary = True
+    for k, v in generic.items():
+        if v is not None:
+            sf[k] = v        # the transit registry has its own (equivalent) trace functions
     reg.percent_json = True      # '%d' % json: TypeError unless it is a number; f"{json}" formats the Python value
     reg.nt_strict_attrs = True   # RelayV1Hint has no .priority / .hostname: AttributeError
     install_endpoint_models(reg)
-    return reg
 
 
 def install_endpoint_models(reg):
@@ -410,6 +427,20 @@ for _c in CONTRACTS:
         _c.qf_feasibility = True     # quantified invariants: branch pruning without them (keeps more paths, never fewer)
 
 
+CONTRACTS.append(
+    Contract("lemma:roundtrip_relay_single", props=[PROP], params={"h0": "nt[DirectTCPV1Hint]"}, source_module="wormhole/_hints.py",
+             source_text="""
+             def roundtrip_relay_single(h0):
+                 return parse_hint(encode_hint(RelayV1Hint(hints=(h0,))))
+             """,
+             requires=["valid_hint(h0)"],
+             ensures=[("relay-hint-parses-back-to-the-same-target",
+                       "isinstance(result, RelayV1Hint) and len(result.hints) == 1 and result.hints[0] == h0")],
+             note="the relay hints this side produces carry exactly one Direct sub-hint (Common.__init__ / "
+                  "Connector.__attrs_post_init__ build RelayV1Hint(hints=(relay_hint,)) from parse_hint_argv): encode_hint's "
+                  "relay branch (inlined, real loop) followed by parse_hint (parse_tcp_v1_hint by contract) gives it back"))
+
+
 def regf_automat():
     """the Connector's machine is dispatched through its real transition table"""
     from pyvc.automat import AutomatSupport
@@ -425,13 +456,45 @@ def regf_automat():
     return reg
 
 
+def regf_inline_parse_hint():
+    """the relay round trip runs the real parse_hint (its relay branch), with parse_tcp_v1_hint by contract"""
+    reg = regf()
+    del reg.contracts["wormhole/_hints.py:parse_hint"]
+    return reg
+
+
 def tasks():
-    return [ContractTask(c, regf_automat if c.target == CON + "got_hints" else regf) for c in CONTRACTS]
+    special = {CON + "got_hints": regf_automat, "lemma:roundtrip_relay_single": regf_inline_parse_hint}
+    return [ContractTask(c, special.get(c.target, regf)) for c in CONTRACTS]
 
 
 TRUSTED = ["z3/cvc5", "pyvc semantics of the Python subset incl. the JSON sort (bool is a subclass of int; .get/[]/in/iteration "
-           "raise AttributeError/KeyError/TypeError exactly as CPython does on the wrong variant)",
-           "sorted() model (same members; TypeError iff incomparable priorities possible)",
-           "Twisted endpoint constructors accept (str, int)"]
-ASSUMPTIONS = ["JSON floats are reals", "Connector.got_hints is an Automat input treated as a boundary here",
-               "Connector._use_hints (grouping by priority) is not under contract yet"]
+           "raise AttributeError/KeyError/TypeError exactly as CPython does on the wrong variant; '%d' % x raises TypeError unless x "
+           "is a number; str()/f-string of a JSON value never raises)",
+           "sorted() model (same members, every element a member of the sorted set; TypeError iff two or more elements and some "
+           "priority/key is not a number); collections.defaultdict(list) as a map priority -> list of hint objects",
+           "Twisted: TCP4ClientEndpoint / TCP6ClientEndpoint / HostnameEndpoint(reactor, host, port), isIPAddress / isIPv6Address(host) "
+           "and Tor.stream_via(host, port) accept a str host and an int port (each call site PROVES its arguments are such); "
+           "stream_via may raise ValueError; task.deferLater and endpoint.connect return a new Deferred and call nothing back "
+           "synchronously; Deferred.addErrback/addCallback are recorded events",
+           "HKDF returns bytes (the relay handshake text is not C20's business)"]
+ASSUMPTIONS = ["JSON floats are reals; a priority 1 and a priority 1.0 are distinct dictionary keys in the model (equal keys in "
+               "CPython): affects only how hints are grouped, not whether anything raises",
+               "Manager.use_hints: Connector.got_hints is recorded as an event there (the argument is proved to hold only parsed "
+               "hints); Connector.got_hints itself is verified through the real Automat table with exactly that precondition. "
+               "Manager.rx_HINTS (the Manager's own machine) is not under contract here: C11/C17 own the Manager machine",
+               "Connector.got_hints in state 'stopped' raises NoTransition (Automat); that the Manager does not feed a stopped "
+               "Connector is not decided here",
+               "the relay hints this side configures (transit_relay / _transit_relays, from parse_hint_argv) are taken as parsed "
+               "hint objects: an unparseable --transit-helper string yields RelayV1Hint((None,)), which is own configuration, not "
+               "peer input",
+               "Connector._connect requires the 16-hex-digit side this Connector was constructed with",
+               "OPEN (defect candidate, reproduced natively): Connector._schedule_connection schedules _connect(None, ..) when "
+               "endpoint_from_hint_obj returns None (a relay-v1 hint whose sub-hint is tor-tcp-v1 on a client without Tor, or an "
+               "address Tor refuses): AttributeError inside the reactor, logged by the errback chain; obligation "
+               "_schedule_connection.ensures.no-connect-scheduled-without-an-endpoint is left failing",
+               "not under contract: Common.get_connection_hints / _get_direct_hints (inlineCallbacks + listener set-up: this side's own "
+               "addresses), Connector._publish_hints / Manager.send_hints (encode side of the dilation hints: encode_hint is "
+               "covered by the two round-trip lemmas, the list comprehension around it is not); the relay round trip is proved for "
+               "the one-sub-hint relay hints this side builds, not for arbitrary RelayV1Hint values (encode_hint writes every "
+               "sub-hint as direct-tcp-v1)"]
